@@ -22,6 +22,7 @@ DECIDES = (
     "index table the grid was built from (C15.BACKPORT)."
     ' (C15.WRITE-GUARD also:) a free point next to a fixed one averages over ALL its neighbours; fix_indexes / fix_points accumulate over calls; on a 1-D float model the requested number of sweeps is carried out even when the last free point is already at rest; fix_points matches with a purely absolute test.'
     ' A position that coincides with no grid point pins nothing; a point fixed between two smoothing passes is left alone by the second; the neighbour sum is divided by the number of neighbours (parts of C15.WRITE-GUARD); no cached list of free junctions survives fix_* (C15.NO-STALE-CACHE).'
+    ' The sweep count is honoured up to 200 on a model that never converges; index 0 can be fixed (parts of C15.WRITE-GUARD); positions are not rounded on their way through the grid (C15.NO-ROUNDING); the sketch copy-back updates clamped, linked and free points alike (part of C15.BACKPORT).'
 )
 NOT_DECIDED = "convergence to the fixed point, the regular-lattice solution (numerics)."
 ASSUMPTIONS = ["points are symbolic atoms; np.average/np.take/np.array are modelled by their index semantics only"]
